@@ -269,6 +269,32 @@ def h_loading_paths(eng, path):
             eng.prove("furl" in {str(u) for u in edited.get_compatible_units("m", "root")}, "import-edited:new-unit-listed")
             eng.prove(Eq(edited.Quantity(xx, "furl").to("inch").magnitude, xx * 10 * sf2), "import-edited:new-unit")
             return
+        elif path == "cache-same-text-two-directories":
+            # two root files with the same text in two directories, each importing "its" imported.txt:
+            # with a shared cache folder each still reads the file next to itself
+            L = eng.lit
+            sf2 = eng.real("sf2")
+            eng.assume(sf2 > 0)
+            eng.assume(Not(Eq(sf2, t.sf)))
+            mov = t.movable()
+            cache = os.path.join(tmp, "cache")
+            roots = {}
+            root_text = "\n".join(t.head() + ["@import imported.txt"] + t.tail()) + "\n"  # byte-identical in both
+            for d_, sf_ in (("A", t.sf), ("B", sf2)):
+                os.makedirs(os.path.join(tmp, d_))
+                roots[d_] = os.path.join(tmp, d_, "root.txt")
+                with open(roots[d_], "w", encoding="utf-8") as f:
+                    f.write(root_text)
+                with open(os.path.join(tmp, d_, "imported.txt"), "w", encoding="utf-8") as f:
+                    f.write("\n".join(ln if not ln.startswith("ft ") else f"ft = {L(sf_)} * inch" for ln in mov) + "\n")
+            xx = eng.real("x_two")
+            for round_ in ("cold", "warm"):
+                ra = pint.UnitRegistry(roots["A"], non_int_type=eng.ntype, cache_folder=cache, on_redefinition="raise")
+                rb = pint.UnitRegistry(roots["B"], non_int_type=eng.ntype, cache_folder=cache, on_redefinition="raise")
+                eng.prove(Eq(ra.Quantity(xx, "ft").to("inch").magnitude, xx * t.sf), f"two-directories:{round_}:A-reads-its-own-import")
+                eng.prove(Eq(rb.Quantity(xx, "ft").to("inch").magnitude, xx * sf2), f"two-directories:{round_}:B-reads-its-own-import")
+                eng.prove(Eq(rb.get_root_units("yard")[0], 3 * t.si * sf2), f"two-directories:{round_}:B-root-factor")
+            return
         elif path in ("cache-cold", "cache-warm"):
             fn = os.path.join(tmp, "defs.txt")
             with open(fn, "w", encoding="utf-8") as f:
@@ -589,6 +615,13 @@ ILL_FORMED = {
     "duplicate-definition": ["m = [length]", "x = {a} * m", "x = {b} * m"],
     "context-parameter-unused": ["m = [length]", "s = [time]", "@context(q={a}) c", "    [length] -> [time]: value * s / m", "@end"],
     "system-unknown-unit": ["m = [length]", "@system S", "    nosuch", "@end"],
+    # invalid names in the symbol position; fields left empty
+    "unit-symbol-with-spaces": ["m = [length]", "x = {a} * m = bad sym"],
+    "prefix-symbol-with-spaces": ["m = [length]", "kk- = {a} = k k-"],
+    "double-equals": ["m = [length]", "x == {a} * m"],
+    "empty-modifier-value": ["kel = [temp]", "degX = {a} * kel; offset:"],
+    "empty-relation": ["m = [length]", "x ="],
+    "empty-prefix-value": ["m = [length]", "kk- ="],
     # block headers that are not of the documented form (invalid name, trailing junk)
     "header:group-invalid-name": ["m = [length]", "@group test-imperial", "    y = {a} * m", "@end"],
     "header:group-trailing-junk": ["m = [length]", "@group test junk", "    y = {a} * m", "@end"],
@@ -626,9 +659,12 @@ def h_ill_formed(eng, kind):
         return
     # ... or at the latest on first use of what was defined
     names = [ln.split("=")[0].strip() for ln in lines if "=" in ln and not ln.startswith(("@", "[", " "))]
-    names = [n.rstrip("-") for n in names]
+    # a prefix is used through a prefixed unit
+    names = [(n.rstrip("-") + "m") if n.endswith("-") else n for n in names]
     raised = False
-    for n in names + ["x", "degX"]:
+    # (only names that the text defines: an undefined name raising would prove nothing)
+    names = [n for n in dict.fromkeys(names) if n.isidentifier()]
+    for n in names:
         try:
             q = ureg.Quantity(x, n)
             q.to_root_units()
@@ -669,7 +705,7 @@ def cases(tier, seed):
         out.append(Case("H10.b", "perm:" + "".join(map(str, p)), M, "h_interpret", {"perm": list(p), "layout": "plain"}, opts=opts, validate=0, weight=5.0))
     for p in rnd.sample(perms, 6 if not big else 40):
         out.append(Case("H10.b", "perm-units-first:" + "".join(map(str, p)), M, "h_interpret", {"perm": list(p), "layout": "units-first"}, opts=opts, validate=0, weight=5.0))
-    for path in ("file", "load_definitions", "define", "cache-cold", "cache-warm", "cache-import-edit"):
+    for path in ("file", "load_definitions", "define", "cache-cold", "cache-warm", "cache-import-edit", "cache-same-text-two-directories"):
         out.append(Case("H10.c", path, M, "h_loading_paths", {"path": path}, opts=opts, validate=1 if path in ("file", "load_definitions") else 0, weight=6.0))
     out.append(Case("H10.c", "cache-across-processes", M, "h_cache_across_processes", {}, kind="conc"))
     for kind in ILL_FORMED:
